@@ -150,7 +150,7 @@ def ident(cls):
     return "ir_" + "".join(ch if ch.isalnum() else "_" for ch in cls)
 
 
-def emit_file(path, module_comment, blocks, emitter=None):
+def emit_file(path, module_comment, blocks, emitter=None, enums=None):
     """blocks: list of (block type name as registered, class name, python IR)"""
     em = emitter or Emitter()
     lines = ["(* GENERATED by tools/nif2ir.py -- do not edit. %s *)" % module_comment,
@@ -164,6 +164,14 @@ def emit_file(path, module_comment, blocks, emitter=None):
         lines.append("")
         table.append("(%d, (%s_init, %s))" % (i, d, d))
     lines.append("Definition block_table : list (N * (stmt * stmt)) :=\n  [" + ";\n   ".join(table) + "].")
+    if enums is not None:
+        # names reported by GetChildRefs+GetPtrs, and by GetStringRefs, per block type
+        rows = []
+        for (bname, cls, ir, init, i) in blocks:
+            b, s, _ = enums.get(bname, ([], [], []))
+            rows.append("(%d, ([%s], [%s]))" % (i, "; ".join(str(em.nid(n)) for n in b), "; ".join(str(em.nid(n)) for n in s)))
+        lines.append("")
+        lines.append("Definition enum_table : list (N * (list N * list N)) :=\n  [" + ";\n   ".join(rows) + "].")
     lines.append("")
     os.makedirs(os.path.dirname(path), exist_ok=True)
     txt = "\n".join(lines)
@@ -173,5 +181,7 @@ def emit_file(path, module_comment, blocks, emitter=None):
     except OSError:
         pass
     if old != txt:
-        open(path, "w").write(txt)
+        tmp = "%s.tmp%d" % (path, os.getpid())
+        open(tmp, "w").write(txt)
+        os.replace(tmp, path)
     return em
